@@ -187,9 +187,45 @@ func (r *connReader) read() ([]byte, status.Status) {
 
 	// Read bytes
 	r.buf.Reset()
+	if size > maxReadAhead {
+		return r.readLarge(int(size))
+	}
+
 	buf := r.buf.Grow(int(size))
 	if _, err := io.ReadFull(r.reader, buf); err != nil {
 		return nil, mpxError(err)
+	}
+	return buf, status.OK
+}
+
+// maxReadAhead is the maximum number of bytes allocated for a message before its bytes arrive.
+const maxReadAhead = 1024 * 1024
+
+// readLarge reads a message larger than maxReadAhead.
+//
+// The size comes from the peer. The memory is allocated as the bytes arrive, doubling the buffer,
+// and not in advance: a header alone must not make the process allocate (and zero) gigabytes.
+func (r *connReader) readLarge(size int) ([]byte, status.Status) {
+	buf := make([]byte, 0, maxReadAhead)
+
+	for len(buf) < size {
+		// Next chunk, at most as large as what has been received already
+		n := max(len(buf), maxReadAhead)
+		n = min(n, size-len(buf))
+
+		// Grow buffer
+		if cap(buf)-len(buf) < n {
+			buf1 := make([]byte, len(buf), len(buf)+n)
+			copy(buf1, buf)
+			buf = buf1
+		}
+
+		// Read chunk
+		chunk := buf[len(buf) : len(buf)+n]
+		if _, err := io.ReadFull(r.reader, chunk); err != nil {
+			return nil, mpxError(err)
+		}
+		buf = buf[:len(buf)+n]
 	}
 	return buf, status.OK
 }
